@@ -45,10 +45,10 @@ CLAIMED = {
         note="Completeness across threads needs every command pushed before the root's commit to be drained no later than it, and no command to be consumed before older commands of its own trace: defects D4 (two-pass drain, bd94330) and D14 (second-pass commands carried to the next cycle, e2fbc0a), both replayed on the unfixed code and fixed in /repo; the model has the same passes (Sys.cycStep phases atRx2, deferred commits, Sys.carried / splitSecond). The theorems characterise the report relative to the batch a cycle hands to the processing loops; that this batch is causally closed is argued in DESIGN.md and exercised by stepped cycles with operations of all threads between the steps (random streams and witnesses), not one Lean theorem over histories (the model has no happens-before relation). A thread's first tracing call during a drain blocks (background operations bgBegin/bgEnd).",
         design="§4 C03"),
     "C04": dict(
-        technique="Lean 4: drop-before-submit-before-commit lemmas, default-configuration no-op theorem (C04_noop_default_cycle), whole-program per-thread order (Fifo_no_overtaking); differential fh-seq vs model; python spec oracle",
+        technique="Lean 4: drop-before-submit-before-commit lemmas, default-configuration no-op theorem (C04_noop_default_cycle), whole-program per-thread order (Fifo_no_overtaking), parked-cancel theorem (C04_parked_cancel_suppresses); differential fh-seq vs model; python spec oracle",
         text="Kernel-checked: C04_dropped_not_emitted (a consumed drop suppresses the id in that cycle even with the commit in the same batch, and releases it), C04_late_submits_discarded, C04_others_unaffected, C04_noop_default / C04_noop_default_cycle (D9 fix: in the default configuration removing all drop commands from a batch changes nothing). "
              "Tie: programs cancelling roots at arbitrary points in both configurations, multi-parent spans shared with non-cancelled traces; oracle checks nothing of a cancelled trace is ever delivered, every other trace exactly as specified, and that cancel() without cancelable(true) changes nothing (attachments parked before the cancel survive).",
-        note="'Once cancel() has been called' needs the drop to be drained no later than the commit: same thread by FIFO of forced commands (C09, D2 fix) and, over whole programs, Fifo_no_overtaking (Props/Fifo.lean: a command the thread's channel accepted earlier is popped earlier); across threads by the two-pass drain (D4 fix bd94330, witness corpus/C04/D4-*.txt) and the carried second-pass commands (D14 fix e2fbc0a, witness corpus/C04/D14-*.txt). Open known finding D21 (KNOWN-FINDING line, witness corpus/known/kf-C04-D21-*.txt): a cancel() parked in the calling thread's overflow list because its queue is full is overtaken by the root's commit sent from another thread; the theorems assume the cancel reached the ring (hypothesis CancelNotParked). D3 (a thread exiting with parked commands and a full queue can lose the drop) remains noted.",
+        note="'Once cancel() has been called' needs the drop to be drained no later than the commit: same thread by FIFO of forced commands (C09, D2 fix) and, over whole programs, Fifo_no_overtaking (Props/Fifo.lean: a command the thread's channel accepted earlier is popped earlier); across threads by the two-pass drain (D4 fix bd94330, witness corpus/C04/D4-*.txt) and the carried second-pass commands (D14 fix e2fbc0a, witness corpus/C04/D14-*.txt). D21 (a cancel() parked in the calling thread's overflow list because its queue is full was overtaken by the root's commit sent from another thread) is fixed in /repo (da73ac0: PARKED_CANCELS note consulted by the collector before every commit; theorem C04_parked_cancel_suppresses for every state and drain result, C04_cancel_in_queue_or_noted; witness corpus/C04/D21-*.txt and four directed scenarios on the real queue). D3 (a thread exiting with parked commands and a full queue can lose the drop) remains noted.",
         design="§4 C04"),
     "C05": dict(
         technique="Lean 4: whole-program invariant Prov proved preserved by every operation (C05_only_sampled_roots_delivered, C05_unsampled_trace_silent: for every program, no report contains a record of a trace that has no sampled root), plus flag-copy lemmas, submit filter theorem, unsampled-root theorem, scope any-sampled lemma; differential fh-seq vs model; python spec oracle",
